@@ -11,6 +11,7 @@ CONSTANTS
   MaxReorgs = 1
   MaxIdx = 0
   MaxFails = 0
+  InitDuties = FALSE
   Weaken = "noResetOnReorg"
 INVARIANT AtMostOnce
 INVARIANT AtItsSlot
